@@ -195,6 +195,10 @@ func run(id, tier, seed, replay string, shardsOverride int, keep bool) int {
 			if replay != "" {
 				c.Env = append(c.Env, "VERIF_REPLAY="+replay)
 			}
+			if cfg.Race {
+				// race reports go to <work>/race-<shard>.<pid>; the check reads them after every case
+				c.Env = append(c.Env, "GORACE=halt_on_error=0 log_path="+filepath.Join(work, fmt.Sprintf("race-%d", i)))
+			}
 			c.Stdout = lf
 			c.Stderr = lf
 			c.SysProcAttr = &syscall.SysProcAttr{Setpgid: true}
